@@ -13,9 +13,18 @@ boltons.iterutils helpers and compared with an independent oracle:
                               first occurrences, collections.Counter, "elements with that key, in order"
   chunk_ranges                the clauses of the statement as arithmetic predicates
 
+Extensions beyond the basic space (all within the statement's "every input sequence / all valid parameters"):
+  * presentations that are neither sequences nor one-shot iterators: dict values views and deques (any sequence) for
+    every helper, and dicts, OrderedDicts, key views, sets and frozensets (sequences of distinct hashable items; the
+    expected order is the iteration order of that very object) for the keyed helpers;
+  * elements that are not hashable (a list and a dict) for split / strip with a single separator value or a callable;
+  * chunk_ranges with sizes / offsets far beyond 2**53 (directed grid around powers of two, a handful of chunks each;
+    coverage is decided by interval arithmetic) - a finite directed grid, NOT an exhaustive space.
+
 Only parameters the statement calls valid are explored (size >= 1, count >= 1, 0 <= overlap < chunk_size,
 maxsplit None or >= 0, bool-valued keys for partition ...).
 """
+import collections
 import itertools
 import signal
 from collections import Counter
@@ -80,6 +89,21 @@ def make_src(elems, seq, form):
         return ''.join(xs)
     if form == 'bytes':
         return bytes(xs)
+    if form == 'values':                       # re-iterable, sized, neither a sequence nor a Set/Mapping
+        return dict(enumerate(xs)).values()
+    if form == 'deque':
+        return collections.deque(xs)
+    # the remaining presentations need distinct hashable items
+    if form == 'dict':
+        return dict.fromkeys(xs)
+    if form == 'odict':
+        return collections.OrderedDict.fromkeys(xs)
+    if form == 'keys':
+        return dict.fromkeys(xs).keys()
+    if form == 'set':
+        return set(xs)
+    if form == 'frozenset':
+        return frozenset(xs)
     raise AssertionError(form)
 
 
@@ -90,11 +114,13 @@ def show(x):
 # ======================================================================================================
 # chunked / chunked_iter
 
-def pos_elems(form, sepval='s'):
+def pos_elems(form, sepval='s', kind=None):
     if form == 'str':
         return (',', 'a', 'b')
     if form == 'bytes':
         return (44, 97, 98)
+    if kind == 'unhashable':       # rows of a table, parsed records ...: the non-separator elements cannot be hashed
+        return (sepval, ['a'], {'b': 1})
     return (sepval, 'a', 'b')
 
 
@@ -234,7 +260,7 @@ def split_sep_arg(variant, sepval):
 def ev_split(c):
     seq, form, variant, ms = c['seq'], c['form'], c['sep'], c['maxsplit']
     sepval, grouping = SPLIT_VARIANTS[variant]
-    elems = pos_elems(form, sepval)
+    elems = pos_elems(form, sepval, c.get('elems'))
     chars = (' ' if grouping else ',', 'a', 'b')
     kw = {}
     if variant != 'default':
@@ -304,7 +330,7 @@ STRIP_VARIANTS = {
 
 def ev_strip(c):
     fn, seq, form, variant = c['fn'], c['seq'], c['form'], c['strip_value']
-    elems = pos_elems(form, STRIP_VARIANTS[variant])
+    elems = pos_elems(form, STRIP_VARIANTS[variant], c.get('elems'))
     chars = (' ' if variant != 'value' else ',', 'a', 'b')
     args = () if variant == 'default' else (elems[0],)
     text = ''.join(chars[i] for i in seq)
@@ -337,6 +363,9 @@ class Obj:
     def __repr__(self):
         return self.name
 
+    def __hash__(self):              # identity equality, but a hash (hence a set order) that is the same in every run
+        return hash(self.name)
+
 
 def universe(name, form):
     """-> (items, keys) : the item objects and the key value of each."""
@@ -344,6 +373,8 @@ def universe(name, form):
         if form == 'bytes':
             return (97, 98, 99), (97, 98, 99)
         return ('a', 'b', 'c'), ('a', 'b', 'c')
+    if name == 'words':     # distinct hashable items whose keys (len) collide
+        return ('a', 'bb', 'cc', 'd', 'eee'), (1, 2, 2, 1, 3)
     if name == 'nones':     # falsy scalars, None included: values that ad-hoc "not seen yet" markers collide with
         return (None, 0, ''), (None, 0, '')
     ks = ('A', 'A', 'B', 'B', 'C')
@@ -375,6 +406,8 @@ def key_arg(uni, kind, seq, keys):
             return lambda x: x.flag
         if uni == 'strs':
             return lambda x: isinstance(x, str)
+        if uni == 'words':
+            return len
         return lambda x: x
     if kind == 'attr':
         return 'k' if uni == 'objs' else 'flag'
@@ -402,12 +435,22 @@ def ev_keyed(c):
     karg = key_arg(uni, kind, seq, keys)
     kw = {} if kind in ('none', 'default') else {'key': karg}
     I = iu()
-    seqkeys = [keys[i] for i in seq]
-    src = lambda: make_src(items, seq, form)     # noqa
     shape = '(key=%s)' % kind
 
     def labs(xs):
         return [lab(x) for x in xs]
+
+    if form in CONT_FORMS:
+        # a re-iterable container: one object serves every call; the input sequence is what iterating it gives
+        # (for sets: whatever order this very object has)
+        obj = make_src(items, seq, form)
+        seq = labs(list(obj))
+        if not all(isinstance(i, int) for i in seq):
+            raise AssertionError('harness: container presentation does not iterate over the input items')
+        src = lambda: obj                            # noqa
+    else:
+        src = lambda: make_src(items, seq, form)     # noqa
+    seqkeys = [keys[i] for i in seq]
 
     if fn == 'unique':
         want, seen = [], []
@@ -474,16 +517,34 @@ def ev_keyed(c):
 # ======================================================================================================
 # chunk_ranges
 
+UNDECIDED = 'C09|undecided'      # not a violation: the case could not be decided within the step limit
+SMALL_RANGE = 4096               # up to this input_size coverage is decided index by index, beyond it by an interval sweep
+HUGE_CAP = 256                   # step limit for huge inputs (the grid needs at most ~8 ranges per case)
+
+
+def covers(res, lo, hi):
+    """Is every index of [lo, hi) inside some (begin, end) of res?  Interval sweep, the ranges in any order."""
+    reach = lo
+    for b, e in sorted(res):
+        if reach >= hi or b > reach:
+            break
+        reach = max(reach, e)
+    return reach >= hi
+
+
 def ev_ranges(c):
     n, size, off, ov, align = c['input_size'], c['chunk_size'], c['input_offset'], c['overlap_size'], c['align']
     stop, step = off + n, size - ov
     sfx = '(align)' if align else ''
-    cap = n + 4
+    huge = n > SMALL_RANGE
+    cap = HUGE_CAP if huge else n + 4
 
     def go():
         return list(itertools.islice(iu().chunk_ranges(n, size, input_offset=off, overlap_size=ov, align=align), cap + 1))
     res = call(go)
     if isinstance(res, list) and len(res) > cap:
+        if huge:     # the statement does not bound the number of ranges and a huge input cannot be drained: no verdict
+            return [(UNDECIDED, None, 'more than %d ranges' % cap)]
         return [('C09|fn:chunk_ranges|terminates%s' % sfx, 'at most %d ranges' % (n + 1), 'more than %d' % cap)]
     if not (isinstance(res, list) and all(isinstance(r, (tuple, list)) and len(r) == 2 and
                                           all(isinstance(v, int) for v in r) for r in res)):
@@ -502,10 +563,16 @@ def ev_ranges(c):
         bad('begin=previous-end-overlap', 'begin[i] == end[i-1] - %d' % ov)
     if align and any(res[i][0] % step for i in range(1, len(res))):
         bad('aligned-begins', 'begin[i] %% %d == 0 for i >= 1' % step)
-    covered = set()
-    for b, e in res:
-        covered.update(range(b, e))
-    if not set(range(off, stop)) <= covered:
+    if huge:
+        all_covered = covers(res, off, stop)
+    else:
+        covered = set()
+        for b, e in res:
+            covered.update(range(b, e))
+        all_covered = set(range(off, stop)) <= covered
+        if all_covered != covers(res, off, stop):
+            raise AssertionError('oracle: interval sweep and index-by-index coverage disagree')
+    if not all_covered:
         bad('covers-every-index', 'every index in [%d, %d)' % (off, stop))
     return out
 
@@ -533,14 +600,24 @@ def evaluate(case):
 def bounds(tier):
     if tier == 'quick':
         return {'L': 7, 'Ls': 7, 'Lkey': 5, 'L2': 5, 'max_size': 9, 'counts': (None, 1, 2, 9), 'maxsplits': ('unset', None, 0, 1, 2, 3, 9),
-                'ranges': {'input_size': 20, 'chunk_size': 8, 'input_offset': 12}}
+                'ranges': {'input_size': 20, 'chunk_size': 8, 'input_offset': 12},
+                'huge_sizes': huge_chunk_sizes(tier), 'huge_chunks': 4}
     return {'L': 8, 'Ls': 9, 'Lkey': 6, 'L2': 6, 'max_size': 10, 'counts': (None, 1, 2, 3, 10),
             'maxsplits': ('unset', None, 0, 1, 2, 3, 4, 5, 10),
-            'ranges': {'input_size': 48, 'chunk_size': 12, 'input_offset': 25}}
+            'ranges': {'input_size': 48, 'chunk_size': 12, 'input_offset': 25},
+            'huge_sizes': huge_chunk_sizes(tier), 'huge_chunks': 6}
 
 
 FORMS5 = ('list', 'tuple', 'gen', 'str', 'bytes')
 FORMS3 = ('list', 'tuple', 'gen')
+CONT_ANY = ('values', 'deque')                                   # present any sequence
+CONT_DISTINCT = ('dict', 'odict', 'keys', 'set', 'frozenset')    # present sequences of distinct hashable items
+CONT_FORMS = CONT_ANY + CONT_DISTINCT
+SHORTER = 2           # container presentations of arbitrary sequences are enumerated to a length this much shorter
+
+
+def maxlen_for(form, maxlen):
+    return maxlen - SHORTER if form in CONT_ANY else maxlen
 
 
 def seqs(nsym, maxlen):
@@ -554,7 +631,7 @@ def seqs(nsym, maxlen):
 def gen_chunked(B, arg):
     form, size = arg
     fills = ('unset', 'z') if form in ('str', 'bytes') else ('unset', 'none', 'z')
-    for seq in seqs(3, B['L']):
+    for seq in seqs(3, maxlen_for(form, B['L'])):
         nt = len(seq) >= 2
         for fill in fills:
             for count in B['counts']:
@@ -563,7 +640,7 @@ def gen_chunked(B, arg):
 
 def gen_windowed(B, arg):
     form, size = arg
-    for seq in seqs(3, B['L']):
+    for seq in seqs(3, maxlen_for(form, B['L'])):
         nt = len(seq) >= 2
         for fill in ('unset', 'none', 'z'):
             if size == 'pairwise':
@@ -580,15 +657,20 @@ def split_shards(B):
             if f == 'bytes' and v == 'set':
                 continue           # {44, 'q'}: nothing new
             out.append((v, f))
+    out += [(v, f) for v in SPLIT_VARIANTS for f in CONT_ANY]
+    # unhashable elements: a single separator value is compared with ==, a callable does what it likes; a collection
+    # of separators is looked up by hash and therefore not applicable
+    out += [(v, f, 'unhashable') for v in ('default', 'None', 'value', 'callable') for f in ('list', 'gen')]
     return out
 
 
 def gen_split(B, vf):
-    v, form = vf
-    for seq in seqs(3, B['Ls']):
+    v, form = vf[:2]
+    extra = {'elems': vf[2]} if len(vf) > 2 else {}
+    for seq in seqs(3, B['Ls'] - SHORTER if (extra or form in CONT_ANY) else B['Ls']):
         nt = 0 in seq and len(set(seq)) > 1
         for ms in B['maxsplits']:
-            yield {'fn': 'split', 'seq': seq, 'form': form, 'sep': v, 'maxsplit': ms}, nt
+            yield dict({'fn': 'split', 'seq': seq, 'form': form, 'sep': v, 'maxsplit': ms}, **extra), nt
 
 
 def gen_split2(B, vf):
@@ -600,12 +682,13 @@ def gen_split2(B, vf):
 
 
 def gen_strip(B, arg):
-    form, fn = arg
+    form, fn = arg[:2]
+    extra = {'elems': arg[2]} if len(arg) > 2 else {}
     variants = ('value',) if form in ('str', 'bytes') else ('default', 'None', 'value')
-    for seq in seqs(3, B['Ls']):
+    for seq in seqs(3, B['Ls'] - SHORTER if (extra or form in CONT_ANY) else B['Ls']):
         nt = 0 in seq and len(set(seq)) > 1
         for v in variants:
-            yield {'fn': fn, 'seq': seq, 'form': form, 'strip_value': v}, nt
+            yield dict({'fn': fn, 'seq': seq, 'form': form, 'strip_value': v}, **extra), nt
 
 
 # (function, universe, key kind, forms)
@@ -623,7 +706,12 @@ KEYED = (
        ('bucketize', 'flags', 'attr', FORMS3), ('bucketize', 'flags', 'fn', FORMS3),
        ('partition', 'truth', 'default', FORMS3), ('partition', 'strs', 'fn', FORMS3),
        ('partition', 'flags', 'attr', FORMS3), ('partition', 'flags', 'fn', FORMS3)]
+    + [(f, 'words', 'fn', FORMS3) for f in ('unique', 'redundant', 'bucketize')]
 )
+# every spec whose key is not a parallel list is also run over the container presentations (dict-like and set-like
+# ones only where the items are hashable)
+KEYED = [(f, u, k, forms + ((CONT_ANY + (CONT_DISTINCT if u != 'lists' else ())) if k != 'list' else ()))
+         for f, u, k, forms in KEYED]
 
 
 def gen_keyed(B, spec):
@@ -634,7 +722,10 @@ def gen_keyed(B, spec):
     for seq in seqs(nsym, maxlen):
         ks = [keys[i] for i in seq]
         nt = len(set(ks)) < len(ks)
+        distinct = len(set(seq)) == len(seq)
         for form in forms:
+            if (form in CONT_DISTINCT and not distinct) or len(seq) > maxlen_for(form, maxlen):
+                continue
             if fn == 'redundant':
                 for groups in (False, True):
                     yield {'fn': fn, 'u': uni, 'key': kind, 'seq': seq, 'form': form, 'groups': groups}, nt
@@ -652,18 +743,46 @@ def gen_ranges(B, arg):
                        'overlap_size': ov, 'align': align}, n > size
 
 
+def huge_chunk_sizes(tier):
+    """Chunk sizes around powers of two on both sides of what a C long / a double can hold, and a decimal one."""
+    ks = (31, 53, 58, 64) if tier == 'quick' else (31, 32, 52, 53, 54, 58, 62, 63, 64, 80, 100)
+    vals = {2 ** k + d for k in ks for d in (-1, 0, 1)} | {10 ** 17}
+    if tier != 'quick':
+        vals |= {10 ** 18, 3 * 2 ** 60 + 5, 10 ** 30 + 7}
+    return sorted(vals)
+
+
+def gen_ranges_huge(B, arg):
+    """Directed grid: a huge chunk_size, an input of a handful of chunks (so the result can be drained)."""
+    align, size = arg
+    for ov in sorted({0, 1, size // 2, size - 1}):
+        step = size - ov
+        ns = {1, size - 1, size, size + 1}
+        for m in range(1, B['huge_chunks'] + 1):
+            ns |= {size + m * step + r for r in (0, 1, step - 1) if 0 <= r < step}
+        offs = sorted({0, 1, step - 1, step, 3 * step + 5, 2 ** 53 + 1, 2 * size + 1})
+        for n in sorted(ns):
+            for off in offs:
+                yield {'fn': 'chunk_ranges', 'input_size': n, 'chunk_size': size, 'input_offset': off,
+                       'overlap_size': ov, 'align': align}, n > size
+
+
+HUGE_PART = 'chunk_ranges(huge sizes, directed grid)'
+
 # part -> (case generator of one shard, shard arguments)
 PARTS = {
-    'chunked': (gen_chunked, lambda B: [(f, n) for n in range(1, B['max_size'] + 1) for f in FORMS5]),
+    'chunked': (gen_chunked, lambda B: [(f, n) for n in range(1, B['max_size'] + 1) for f in FORMS5 + CONT_ANY]),
     'windowed+pairwise': (gen_windowed, lambda B: [(f, n) for n in ['pairwise'] + list(range(1, B['max_size'] + 1))
-                                                   for f in FORMS5]),
+                                                   for f in FORMS5 + CONT_ANY]),
     'split': (gen_split, split_shards),
     'split(two separators)': (gen_split2, lambda B: [('set2', 'list'), ('callable2', 'list'), ('set2', 'gen'),
                                                       ('callable2', 'tuple')]),
-    'strip+lstrip+rstrip': (gen_strip, lambda B: [(f, fn) for fn in ('strip', 'lstrip', 'rstrip') for f in FORMS5]),
+    'strip+lstrip+rstrip': (gen_strip, lambda B: [(f, fn) for fn in ('strip', 'lstrip', 'rstrip') for f in FORMS5 + CONT_ANY]
+                            + [(f, fn, 'unhashable') for fn in ('strip', 'lstrip', 'rstrip') for f in ('list', 'gen')]),
     'unique+redundant+bucketize+partition': (gen_keyed, lambda B: KEYED),
     'chunk_ranges': (gen_ranges, lambda B: [(al, n) for n in range(1, B['ranges']['chunk_size'] + 1)
                                             for al in (False, True)]),
+    HUGE_PART: (gen_ranges_huge, lambda B: [(al, n) for n in B['huge_sizes'] for al in (False, True)]),
 }
 
 RULES = {
@@ -674,6 +793,7 @@ RULES = {
     'strip+lstrip+rstrip': 'input contains at least one strip value and at least one other element',
     'unique+redundant+bucketize+partition': 'some key occurs at least twice in the input',
     'chunk_ranges': 'input_size > chunk_size (more than one range is needed)',
+    HUGE_PART: 'input_size > chunk_size (more than one range is needed)',
 }
 
 
@@ -681,7 +801,7 @@ def run(ctx):
     B = bounds(ctx.tier)
 
     for part, (gen, shard_args) in PARTS.items():
-        has_seq = part != 'chunk_ranges'
+        has_seq = not part.startswith('chunk_ranges')
 
         def shard(arg, gen=gen, has_seq=has_seq):
             _arm()
@@ -694,6 +814,9 @@ def run(ctx):
                         smp = case
                     t.count(nontrivial=nt, sample=smp)
                     for sig, exp, obs in evaluate(case):
+                        if sig == UNDECIDED:
+                            t.add('undecided', 1)
+                            continue
                         t.bad(sig, case, exp, obs)
                         if sig.endswith('|terminates'):
                             hangs += 1
@@ -706,23 +829,38 @@ def run(ctx):
 
         # shard order: simplest presentation / smallest parameter first
         total = inputs.run_shards(ctx, shard, shard_args(B), part=part, rule=RULES[part])
-        if total.extra.get('stopped_after_hangs'):
+        if total.extra.get('stopped_after_hangs') or total.extra.get('undecided'):
             ctx.coverage.setdefault('capped', []).append(part)
 
     cov = ctx.coverage
     cov['rule'] = ('a case (function, input sequence, presentation, parameters) is non-trivial when: '
                    + '; '.join('%s: %s' % kv for kv in RULES.items()))
     cov['exhaustive'] = not cov.get('capped')
+    cov['exhaustive_means'] = ('every case of the bounded spaces listed under bounds was executed; the part "%s" is a '
+                               'finite directed grid of huge parameters (every grid point executed), not an exhaustive '
+                               'space, and is excluded from this claim' % HUGE_PART)
+    cov['directed_supplement'] = {
+        'part': HUGE_PART, 'exhaustive': False,
+        'what': 'chunk_size in %s; overlap_size in {0, 1, chunk_size//2, chunk_size-1}; input_size in {1, chunk_size-1, '
+                'chunk_size, chunk_size+1} and chunk_size + m*step + r for m = 1..%d, r in {0, 1, step-1} '
+                '(step = chunk_size - overlap_size); input_offset in {0, 1, step-1, step, 3*step+5, 2**53+1, '
+                '2*chunk_size+1}; align False/True; coverage decided by an interval sweep'
+                % ([str(v) for v in B['huge_sizes']], B['huge_chunks'])}
     cov['bounds'] = {
         'chunked, windowed, pairwise, unique/redundant/bucketize with key None/identity':
             'every sequence of length 0..%d over 3 symbols {SEP, a, b}' % B['L'],
         'split, strip, lstrip, rstrip': 'every sequence of length 0..%d over 3 symbols {SEP, a, b}' % B['Ls'],
-        'presentations': 'list, tuple, one-shot generator, str, bytes (str/bytes where the elements are characters)',
+        'presentations': 'list, tuple, one-shot generator, str, bytes (str/bytes where the elements are characters); '
+                         'dict values view and deque up to a length %d shorter; keyed helpers also over dict, OrderedDict, '
+                         'dict keys view, set, frozenset holding every sequence of distinct hashable items' % SHORTER,
+        'unhashable elements': 'split (sep omitted / None / a single value / a callable) and strip, lstrip, rstrip over '
+                               '{SEP, a list, a dict}, list and generator, length 0..%d' % (B['Ls'] - SHORTER),
         'size': '1..%d' % B['max_size'], 'count': list(B['counts']), 'fill': ['unset', None, 'z'],
         'sep': sorted(SPLIT_VARIANTS) + ['set of two separators', 'callable accepting two separators'],
         'maxsplit': list(B['maxsplits']),
         'two-separator split': 'every sequence of length 0..%d over 4 symbols {S, T, a, b}' % B['L2'],
-        'keyed helpers': 'every sequence of length 0..%d over 5 items with keys A,A,B,B,C (tuples, unhashable lists, objects); '
+        'keyed helpers': 'every sequence of length 0..%d over 5 items with keys A,A,B,B,C (tuples, unhashable lists, objects; '
+                         'words keyed by len); '
                          'key = callable / attribute name / list of keys / default bool; partition keys are bool-valued' % B['Lkey'],
         'chunk_ranges': 'input_size 0..%(input_size)d x chunk_size 1..%(chunk_size)d x input_offset 0..%(input_offset)d x '
                         'overlap 0..chunk_size-1 x align' % B['ranges'],
@@ -744,4 +882,4 @@ def run(ctx):
 def replay(ctx, data):
     _arm()
     case = data['case']
-    return ['%s expected=%r observed=%r' % (sig, exp, obs) for sig, exp, obs in evaluate(case)]
+    return ['%s expected=%r observed=%r' % (sig, exp, obs) for sig, exp, obs in evaluate(case) if sig != UNDECIDED]
